@@ -13,7 +13,13 @@ WRITE_WORDS = ("INSERT", "UPDATE", "DELETE", "CREATE", "DROP", "REPLACE", "ALTER
 
 
 def is_write(sql):
-    return sql.lstrip().split(None, 1)[0].upper() in WRITE_WORDS if sql.strip() else False
+    if not sql.strip():
+        return False
+    first = sql.lstrip().split(None, 1)[0].upper()
+    if first == "WITH":      # WITH ... INSERT / UPDATE / DELETE
+        up = sql.upper()
+        return any((" %s " % w) in up.replace("\n", " ") for w in ("INSERT", "UPDATE", "DELETE", "REPLACE"))
+    return first in WRITE_WORDS
 
 
 class Plan:
@@ -112,7 +118,7 @@ def summarize(log):
             ev.append("commit")
         elif w == "ROLLBACK":
             ev.append("rollback")
-        elif w in WRITE_WORDS:
+        elif w in WRITE_WORDS or (w == "WITH" and is_write(s)):
             ev.append("write")
         elif w in ("SELECT", "WITH", "PRAGMA"):
             ev.append("read")
